@@ -89,6 +89,7 @@ const ONAMES: [&str; 9] = ["none", "ok", "err", "panic", "abort", "signal", "tim
 
 const HDR: usize = 64;
 const CASE_TIMEOUT_MS: u64 = 10_000;
+const CASE_BLOCKED_MS: u64 = 120_000;
 const AS_LIMIT_MB: u64 = 1024;
 const CHILD_CHUNK: usize = 400_000; // a child is recycled after this many cases
 const LIVE_LIMIT: usize = 256 << 20; // ... or when the parsers have leaked this much
@@ -482,6 +483,24 @@ fn registry() -> Vec<PDef> {
         for op in ["u64", "i64", "u64seq", "i64seq"] {
             v.push(pd(Box::leak(format!("vie.{s}.{op}").into_boxed_str()), false, false, s == "leb128"));
         }
+    }
+    // thorough tier: all 2^24 strings of length 3 for every parser without an expected-length argument
+    // whose call costs microseconds (measured: <= 3 us per case including the harness overhead)
+    const NO_RAW3: [&str; 11] = [
+        "comp.rans.decompress",
+        "comp.zstd1.decompress",
+        "comp.zstd9.decompress",
+        "huff.ctx.deserialize.o1",
+        "huff.ctx.deserialize.o2",
+        "simdlz77.x1.decompress",
+        "simdlz77.x2.decompress",
+        "simdlz77.x4.decompress",
+        "simdlz77.x8.decompress",
+        "simdlz77.global.decompress",
+        "adaptive.decompress",
+    ];
+    for d in v.iter_mut() {
+        d.raw3 = !d.olen && !d.slow() && !NO_RAW3.contains(&d.name);
     }
     v
 }
@@ -1419,11 +1438,51 @@ impl StatusMap {
     }
 }
 // slots: 0 = current case index, 1 = inside a parser call, 2 = size of a failed allocation,
-//        3 = phase (0 starting, 1 running), 4 = watchdog fired
+//        3 = phase (0 starting, 1 running), 4 = watchdog fired, 5 = the case the watchdog stopped
 
 // ------------------------------------------------------------------ child
 
 static WATCH_CUR: AtomicU64 = AtomicU64::new(u64::MAX);
+
+/// CPU time consumed by this process, in milliseconds
+fn cpu_ms() -> u64 {
+    let mut ts = libc::timespec { tv_sec: 0, tv_nsec: 0 };
+    unsafe { libc::clock_gettime(libc::CLOCK_PROCESS_CPUTIME_ID, &mut ts) };
+    ts.tv_sec as u64 * 1000 + ts.tv_nsec as u64 / 1_000_000
+}
+
+/// Containment self-test (env C15_INJECT="hang@3,segv@5,abort@7,panic@9,oom@11"): the named failure
+/// is produced by the HARNESS inside the call of that case, so that the check can prove on every
+/// run that a hang / crash / abort / panic / failed allocation is contained, attributed to the
+/// right case and reported with the right outcome.  Never set in a normal run.
+fn parse_injections() -> Vec<(String, usize)> {
+    std::env::var("C15_INJECT")
+        .unwrap_or_default()
+        .split(',')
+        .filter_map(|p| p.split_once('@').and_then(|(k, i)| i.parse().ok().map(|i| (k.to_string(), i))))
+        .collect()
+}
+
+fn inject(inj: &[(String, usize)], idx: usize) {
+    for (k, i) in inj {
+        if *i != idx {
+            continue;
+        }
+        match k.as_str() {
+            "hang" => loop {
+                std::hint::black_box(0u64);
+            },
+            "segv" => unsafe { std::ptr::write_volatile(8 as *mut u64, 1) },
+            "abort" => std::process::abort(),
+            "panic" => panic!("injected panic"),
+            "oom" => {
+                let v: Vec<u8> = Vec::with_capacity(3usize << 30);
+                std::hint::black_box(v);
+            }
+            _ => {}
+        }
+    }
+}
 
 fn child_main(a: &Args) -> i32 {
     quiet_panics();
@@ -1450,26 +1509,35 @@ fn child_main(a: &Args) -> i32 {
     let empty: Vec<u8> = vec![];
     let ebytes: &[u8] = enc.as_ref().map(|e| &e.bytes[..]).unwrap_or(&empty);
 
-    // watchdog: a case that runs longer than the limit ends the process with code 3
+    // watchdog: a case that has burnt CASE_TIMEOUT_MS of CPU time (a loop) or has been blocked for
+    // CASE_BLOCKED_MS of wall time ends the process with code 3.  CPU time, not wall time: the
+    // sandbox is paused / starved for many seconds now and then, which is not the parser's doing.
     {
         let stp = StatusMap { ptr: st.ptr, len: st.len };
         std::thread::spawn(move || {
             let mut last = u64::MAX;
             let mut since = std::time::Instant::now();
+            let mut cpu0 = cpu_ms();
             loop {
                 std::thread::sleep(std::time::Duration::from_millis(50));
                 let cur = WATCH_CUR.load(Ordering::Relaxed);
                 if cur != last {
                     last = cur;
                     since = std::time::Instant::now();
-                } else if stp.get_u64(1) == 1 && since.elapsed().as_millis() as u64 >= CASE_TIMEOUT_MS {
+                    cpu0 = cpu_ms();
+                } else if stp.get_u64(1) == 1
+                    && (cpu_ms().saturating_sub(cpu0) >= CASE_TIMEOUT_MS || since.elapsed().as_millis() as u64 >= CASE_BLOCKED_MS)
+                    && WATCH_CUR.load(Ordering::Relaxed) == cur
+                {
                     stp.set_code(cur as usize, O_TIMEOUT);
+                    stp.set_u64(5, cur);
                     stp.set_u64(4, 1);
                     unsafe { libc::_exit(3) };
                 }
             }
         });
     }
+    let injections = parse_injections();
     st.set_u64(3, 1);
     let mut done = 0usize;
     let mut si = 0usize;
@@ -1490,7 +1558,10 @@ fn child_main(a: &Args) -> i32 {
         st.set_u64(2, 0);
         WATCH_CUR.store(idx as u64, Ordering::Relaxed);
         st.set_u64(1, 1);
-        let r = guard(|| (s.run)(&input, olen));
+        let r = guard(|| {
+            inject(&injections, idx);
+            (s.run)(&input, olen)
+        });
         st.set_u64(1, 0);
         match r {
             Ok(true) => st.set_code(idx, O_OK),
@@ -1554,7 +1625,7 @@ fn run_job(a: &Args, job: &JobSpec, dir: &Path, encs_file: &Path) -> JobResult {
     let mut timeouts = vec![0usize; job.segs.len()];
     let mut no_progress = 0;
     while from < job.total {
-        for s in 0..5 {
+        for s in 0..6 {
             st.set_u64(s, 0);
         }
         st.set_u64(0, from as u64);
@@ -1587,7 +1658,7 @@ fn run_job(a: &Args, job: &JobSpec, dir: &Path, encs_file: &Path) -> JobResult {
             res.tool_err = Some(format!("job exceeded its wall budget of {budget} s at case {from} of {}", job.total));
             break;
         }
-        let o = run_child(&args, left.max(CASE_TIMEOUT_MS / 1000 + 5), AS_LIMIT_MB, true);
+        let o = run_child(&args, left.max(CASE_BLOCKED_MS / 1000 + 5), AS_LIMIT_MB, true);
         res.children += 1;
         let cur = st.get_u64(0) as usize;
         let in_case = st.get_u64(1) == 1;
@@ -1607,7 +1678,9 @@ fn run_job(a: &Args, job: &JobSpec, dir: &Path, encs_file: &Path) -> JobResult {
                 from = cur.max(from);
                 continue;
             }
-            ChildOutcome::Exit(3) if st.get_u64(4) == 1 => Some((cur, O_TIMEOUT, format!("no result after {} ms", CASE_TIMEOUT_MS))),
+            ChildOutcome::Exit(3) if st.get_u64(4) == 1 => {
+                Some((st.get_u64(5) as usize, O_TIMEOUT, format!("no result after {} ms of CPU time (or {} ms blocked)", CASE_TIMEOUT_MS, CASE_BLOCKED_MS)))
+            }
             ChildOutcome::Exit(c) => {
                 if in_case && phase == 1 {
                     Some((cur, O_ABORT, format!("process exited with code {c} inside the call")))
@@ -1729,7 +1802,7 @@ fn encode_main(a: &Args) -> i32 {
         }
     }
     let _ = fs::remove_dir_all(&tmp);
-    let all_max = a.get_u64("combo-all-max", if a.thorough() { 160 } else { 0 }) as usize;
+    let all_max = a.get_u64("combo-all-max", if a.thorough() { 320 } else { 0 }) as usize;
     let classes: Vec<Value> = lens.keys().map(|&l| json!({"len": l, "combo": if l <= all_max { "all" } else { "class" }})).collect();
     let raw = a.get_u64("raw", if a.thorough() { 3 } else { 2 });
     let params = json!({"win": a.get_u64("win", 96), "raw": raw, "classes": classes});
